@@ -280,10 +280,11 @@ def kappas(problem, table):
     return [table.setdefault(tuple(row), len(table)) for row in problem['X']]
 
 
-def run_one(ctx, problem, cfg, table, label):
+def run_one(ctx, problem, cfg, table, label, workdir=None, tmp_dir=True):
     """real run + within-run predicate + correspondence.  Returns the run
     dict with 'pred_fail' added."""
-    r = U.run_problem(problem, cfg, want_trace=False)
+    r = U.run_problem(problem, cfg, want_trace=False, workdir=workdir,
+                      tmp_dir=tmp_dir)
     r['pred_fail'] = None
     if not r['ok'] or r['results'] is None:
         ctx.count('run:fails')
@@ -334,15 +335,25 @@ def check_single(ctx, problem, cfg):
 
 
 def check_pair(ctx, problem, cfg, dproblem, dcfg, derivation, copies=None,
-               base_run=None, table=None):
+               base_run=None, table=None, workdir=None, tmp_dir=True,
+               share=None):
     """the paired predicate.  base_run: result of run_one on the base (reused
     across the derivations of one base)"""
     detail = {'kind': 'pair', 'problem': problem, 'config': cfg,
               'derived_problem': dproblem, 'derived_config': dcfg,
-              'derivation': derivation, 'copies': copies or {}}
+              'derivation': derivation, 'copies': copies or {},
+              'share': [workdir is not None, tmp_dir]}
     table = {} if table is None else table
     if base_run is None:
-        base_run = run_one(ctx, problem, cfg, table, 'base')
+        # replay: rebuild the situation (one directory for both runs or not)
+        if share and share[0] and workdir is None:
+            from ctmverif import pipeline
+            with pipeline.workdir('ctmverif_ll_pair_') as wd:
+                return check_pair(ctx, problem, cfg, dproblem, dcfg,
+                                  derivation, copies=copies, table=table,
+                                  workdir=wd, tmp_dir=share[1])
+        base_run = run_one(ctx, problem, cfg, table, 'base', workdir=workdir,
+                           tmp_dir=tmp_dir)
     tree = problem['tree']
     common = [c for c in problem['cell_ids'] if c in set(dproblem['cell_ids'])]
     nontriv = U.has_choice(tree) and len(common) >= 1
@@ -365,7 +376,11 @@ def check_pair(ctx, problem, cfg, dproblem, dcfg, derivation, copies=None,
     ctx.count('pair:encoding:%s->%s' % (cfg['encoding'], dcfg['encoding']))
     ctx.count('pair:workers:%d->%d' % (cfg['n_processors'],
                                        dcfg['n_processors']))
-    der = run_one(ctx, dproblem, dcfg, table, derivation)
+    ctx.count('pair:paths:%s' % ('fresh' if workdir is None else
+                                 'shared' if tmp_dir else
+                                 'shared+tmp_dir=None'))
+    der = run_one(ctx, dproblem, dcfg, table, derivation, workdir=workdir,
+                  tmp_dir=tmp_dir)
     sig = 'C06/paired/%s/' % derivation
     if not base_run['ok'] and not der['ok']:
         ctx.count('pair:both-fail')      # mapping at all is C01's statement
@@ -428,11 +443,22 @@ def run_pairs(ctx, n_bases, kinds):
     for i in range(n_bases):
         problem, cfg = gen_base(rng, i)
         table = {}
-        base = run_one(ctx, problem, cfg, table, 'base')
-        for kind in kinds:
-            dp, dc, copies = derive(rng, problem, cfg, kind)
-            check_pair(ctx, problem, cfg, dp, dc, kind, copies=copies,
-                       base_run=base, table=table)
+        # every other base: ONE directory for the base and all its derived
+        # runs (the query re-written at the same path, in this same process),
+        # half of those with tmp_dir=None so that it is read in place
+        import contextlib
+        from ctmverif import pipeline
+        shared = (i % 2 == 1)
+        tmp = (not shared) or (i % 4 == 1)
+        with (pipeline.workdir('ctmverif_ll_pair_') if shared
+              else contextlib.nullcontext(None)) as wd:
+            base = run_one(ctx, problem, cfg, table, 'base', workdir=wd,
+                           tmp_dir=tmp)
+            for kind in kinds:
+                dp, dc, copies = derive(rng, problem, cfg, kind)
+                check_pair(ctx, problem, cfg, dp, dc, kind, copies=copies,
+                           base_run=base, table=table, workdir=wd,
+                           tmp_dir=tmp)
 
 
 def run_units(ctx, n):
@@ -463,7 +489,7 @@ def replay(ctx, data, from_corpus=False):
     if kind == 'pair':
         check_pair(ctx, d['problem'], d['config'], d['derived_problem'],
                    d['derived_config'], d.get('derivation', 'replay'),
-                   copies=d.get('copies'))
+                   copies=d.get('copies'), share=d.get('share'))
     elif kind == 'single':
         check_single(ctx, d['problem'], d['config'])
     elif kind == 'unit':
